@@ -45,8 +45,8 @@ func ParseChunkSize(r network.Reader) (int, error) {
 		if err != nil {
 			return -1, errors.NewPublic(fmt.Sprintf("cannot read '\r' char at the end of chunk size: %s", err))
 		}
-		// Skip any trailing whitespace after chunk size.
-		if c == ' ' {
+		// Skip any trailing whitespace after chunk size (SP or HTAB).
+		if c == ' ' || c == '\t' {
 			continue
 		}
 		// Skip chunk extensions (";name=value"): a recipient must ignore the ones
